@@ -17,18 +17,23 @@ structure RawReq where
   memLim : Int
   deriving Repr, DecidableEq, Inhabited
 
+/-- first statement of `Validate`: an absent request defaults to the limit -/
+def RawReq.pre (w : RawReq) : RawReq :=
+  if w.cpuReq = 0 ∧ 0 < w.cpuLim then { w with cpuReq := w.cpuLim } else w
+
+/-- the four adjusting statements after the checks -/
+def RawReq.post (w : RawReq) : RawReq :=
+  let w := if w.memReq = 0 ∧ 0 < w.memLim then { w with memReq := w.memLim } else w
+  let w := if 0 < w.memLim ∧ 0 < w.memReq ∧ w.memLim < w.memReq then { w with memLim := w.memReq } else w
+  let w := if 0 < w.cpuReq ∧ 0 < w.cpuLim ∧ w.cpuLim < w.cpuReq then { w with cpuLim := w.cpuReq } else w
+  if w.bind ∧ 0 < w.cpuReq ∧ 0 < w.cpuLim ∧ w.cpuReq < w.cpuLim then { w with cpuReq := w.cpuLim } else w
+
 /-- `WorkloadResourceRequest.Validate` (comparisons and assignments only: exact on thousandths) -/
 def RawReq.validate (w : RawReq) : Outcome RawReq :=
-  let w := if w.cpuReq = 0 ∧ 0 < w.cpuLim then { w with cpuReq := w.cpuLim } else w
-  if w.memLim < 0 ∨ w.memReq < 0 then .err errInvalid
-  else if w.cpuReq < 0 ∨ w.cpuLim < 0 then .err errInvalid
-  else if w.cpuReq = 0 ∧ w.bind then .err errInvalid
-  else
-    let w := if w.memReq = 0 ∧ 0 < w.memLim then { w with memReq := w.memLim } else w
-    let w := if 0 < w.memLim ∧ 0 < w.memReq ∧ w.memLim < w.memReq then { w with memLim := w.memReq } else w
-    let w := if 0 < w.cpuReq ∧ 0 < w.cpuLim ∧ w.cpuLim < w.cpuReq then { w with cpuLim := w.cpuReq } else w
-    let w := if w.bind ∧ 0 < w.cpuReq ∧ 0 < w.cpuLim ∧ w.cpuReq < w.cpuLim then { w with cpuReq := w.cpuLim } else w
-    .ok w
+  if w.pre.memLim < 0 ∨ w.pre.memReq < 0 then .err errInvalid
+  else if w.pre.cpuReq < 0 ∨ w.pre.cpuLim < 0 then .err errInvalid
+  else if w.pre.cpuReq = 0 ∧ w.pre.bind then .err errInvalid
+  else .ok w.pre.post
 
 def RawReq.toReq (w : RawReq) : Req := { bind := w.bind, cpuNum := w.cpuReq.toNat, cpuDen := 1000, mem := w.memReq }
 
